@@ -7,6 +7,7 @@ import (
 	"crypto/sha256"
 	"encoding/hex"
 	"fmt"
+	"io"
 	"math"
 	"os"
 	"strings"
@@ -81,13 +82,41 @@ func trunc(s string, n int) string {
 }
 
 // scanAll drives the exported scanner the way parse.Lexer.Lex does, to EOF or the first error.
-func scanAll(src []byte) (toks []OTok, lerr *LexErr, fail string) {
+// oneByteReader delivers the source one byte per Read: nothing may depend on how a reader chunks
+// the same bytes.
+type oneByteReader struct {
+	b []byte
+	i int
+}
+
+func (r *oneByteReader) Read(p []byte) (int, error) {
+	if r.i >= len(r.b) {
+		return 0, io.EOF
+	}
+	if len(p) == 0 {
+		return 0, nil
+	}
+	p[0] = r.b[r.i]
+	r.i++
+	return 1, nil
+}
+
+func sourceReader(src []byte, slow bool) io.Reader {
+	if slow {
+		return &oneByteReader{b: src}
+	}
+	return strings.NewReader(string(src))
+}
+
+func scanAll(src []byte) (toks []OTok, lerr *LexErr, fail string) { return scanAllR(src, false) }
+
+func scanAllR(src []byte, slow bool) (toks []OTok, lerr *LexErr, fail string) {
 	defer func() {
 		if r := recover(); r != nil {
 			fail = "scanner panic: " + trunc(fmt.Sprint(r), 200)
 		}
 	}()
-	sc := parse.NewScanner(strings.NewReader(string(src)), "<string>")
+	sc := parse.NewScanner(sourceReader(src, slow), "<string>")
 	lx := &parse.Lexer{PrevTokenType: parse.TNil}
 	for n := 0; ; n++ {
 		if n > len(src)+1 {
@@ -163,6 +192,11 @@ func dumpProto(sb *strings.Builder, p *lua.FunctionProto) {
 }
 
 func loadOnce(src []byte, wantProto bool) (class int, msg string, proto string) {
+	return loadOnceR(src, wantProto, false)
+}
+
+// loadOnceR: slow = through LState.Load with the one-byte-per-Read reader instead of LoadString
+func loadOnceR(src []byte, wantProto, slow bool) (class int, msg string, proto string) {
 	defer func() {
 		if r := recover(); r != nil {
 			class, msg = loadPanic, "panic escaped LoadString: "+trunc(fmt.Sprint(r), 300)
@@ -170,7 +204,13 @@ func loadOnce(src []byte, wantProto bool) (class int, msg string, proto string) 
 	}()
 	L := lua.NewState(lua.Options{SkipOpenLibs: true})
 	defer L.Close()
-	fn, err := L.LoadString(string(src))
+	var fn *lua.LFunction
+	var err error
+	if slow {
+		fn, err = L.Load(sourceReader(src, true), "<string>")
+	} else {
+		fn, err = L.LoadString(string(src))
+	}
 	if err != nil {
 		if ae, ok := err.(*lua.ApiError); ok && ae.Type == lua.ApiErrorSyntax {
 			return loadSyntax, trunc(strings.TrimSpace(err.Error()), 200), ""
